@@ -90,9 +90,9 @@ def percall(rng, sc, tags):
     return p
 
 
-def caller_frame(rng, sc, prev_chunk, tags):
+def caller_frame(rng, sc, prev_chunk, tags, force=None):
     df = scenes.frame(sc)
-    k = int(rng.integers(7))
+    k = int(rng.integers(7)) if force is None else force
     if k == 0:
         df['station'] = 'LSZH'
         df['q'] = np.arange(len(df)) * 0.5
@@ -160,6 +160,18 @@ def check(desc):
 
     nops = int(rng.integers(6, 13))
     ok = True
+    forced = False
+    if desc['i'] % 3 == 0:
+        # deterministic prologue: one chunk processed to the end, whose live data frame is then fed back
+        sc0 = scenes.gen_scene(rng, maxrows=80, nce=2)
+        try:
+            with warnings.catch_warnings():
+                warnings.simplefilter('ignore')
+                prev_done = ampycloud.run(scenes.frame(sc0))
+                if scenes.empties_chunk({'rows': scenes.rows_of(prev_done.data)}, model_glob):
+                    prev_done = None
+        except Exception:      # noqa - decided by C08
+            prev_done = None
     with warnings.catch_warnings():
         warnings.simplefilter('ignore')
         for step in range(nops):
@@ -167,7 +179,9 @@ def check(desc):
             if not chunks or choice < 0.25:
                 sc = scenes.gen_scene(rng, maxrows=150, nce=int(rng.choice([1, 2, 3])))
                 call = percall(rng, sc, tags)
-                frame = caller_frame(rng, sc, prev_done, tags)
+                frame = caller_frame(rng, sc, prev_done, tags,
+                                     force=4 if (prev_done is not None and desc['i'] % 3 == 0 and not forced) else None)
+                forced = forced or prev_done is not None
                 owner = prev_done if frame is getattr(prev_done, 'data', None) else None
                 eff = copy.deepcopy(model_glob)
                 if call is not None:
